@@ -264,35 +264,62 @@ OBSERVED = f"is_hermitian flags {{g.is_hermitian}}, {{g2.is_hermitian}}; |dagger
             _, k, pn = entry
             n_pts = 1 if k == 0 else 5
             cases = 0
+            import math
+            import sympy
+            special = []
+            if k:
+                for base in (math.pi / 2, math.pi, -math.pi / 2, 3 * math.pi / 2, 2 * math.pi, -math.pi):
+                    special += [math.nextafter(base, 0.0), math.nextafter(base, 2 * base), base - 1e-10 * (1 if base > 0 else -1), base]
+                special += [1.5707963267, 3.14159265358, 6.283185307, 4.0, 9.0, -7.5, 1e-12, -1e-12, 0.0]
+            points = []
             for pt in range(n_pts):
                 # the last points are large / integer-valued: numeric-only code paths (angle wrapping, int vs float) differ there
                 lo, hi = ((-3, 3), (-3, 3), (-3, 3), (6.5, 14.0), (-14.0, -6.5))[pt]
-                env = {p.strip("_"): (round(rng.uniform(lo, hi), 3) if pt != 2 else rng.randint(-9, 9)) for p in pn}
+                points.append({p.strip("_"): (round(rng.uniform(lo, hi), 3) if pt != 2 else rng.randint(-9, 9)) for p in pn})
+            for j, v in enumerate(special):
+                # values at, and one ulp / 1e-10 on either side of, multiples of pi/2, and beyond one turn: float-only code paths
+                points.append({p.strip("_"): (v if i == j % max(k, 1) else 0.3 + 0.4 * i) for i, p in enumerate(pn)})
+            try:
+                gm, ps, m = M(name)
+            except Exception:
+                m = None
+            syms = sympy.symbols("p0:%d" % max(k, 1))
+            for env in points:
+                vals = [env[p.strip("_")] for p in pn]
                 try:
-                    g = getattr(RB, name) if k == 0 else getattr(RB, name)(*[env[p.strip("_")] for p in pn])
+                    g = getattr(RB, name) if k == 0 else getattr(RB, name)(*vals)
                     real = np.array(g.matrix.tolist(), dtype=complex)
                 except Exception as e:
                     rep = __import__("vfw.replay", fromlist=["x"]).replay_dict(_replay_unitary(name, k, pn)(env), "matrix can be computed")
                     return core.bounded_fail(f"{name}.matrix cannot be computed natively: {type(e).__name__}: {str(e)[:200]}",
                                              cex={"parameters": env}, replay=rep, finding_key=f"{name}.matrix raises {type(e).__name__}")
-                gm, ps, m = M(name)
-                sub = {p.strip("_"): env[p.strip("_")] for p in pn}
-                mine = np.array([[x.evalf_at(sub) for x in row] for row in m.m], dtype=complex)
                 cases += 1
-                if real.shape != mine.shape or not np.allclose(real, mine, atol=1e-9):
+                if k:
+                    ref = np.array(getattr(RB, name)(*syms[:k]).matrix.subs(dict(zip(syms, vals))).evalf(30).tolist(), dtype=complex)
+                else:
+                    ref = real
+                mine = ref if m is None else np.array([[x.evalf_at({p.strip("_"): env[p.strip("_")] for p in pn}) for x in row] for row in m.m], dtype=complex)
+                d = real.shape[0]
+                bad = None
+                if real.shape != ref.shape or not np.allclose(real, ref, atol=1e-9):
+                    bad = "the symbolic matrix of the same gate evaluated there"
+                elif real.shape != mine.shape or not np.allclose(real, mine, atol=1e-9):
+                    bad = "the matrix proved unitary / group law (Engine M) evaluated there"
+                elif not np.allclose(real.conj().T @ real, np.eye(d), atol=1e-9):
+                    bad = "a unitary matrix"
+                if bad:
                     code = f"""
 import numpy as np, sympy
 from orquestra.quantum.circuits import _builtin_gates as B
-vals = {[env[p.strip('_')] for p in pn]!r}
+vals = {vals!r}
 syms = sympy.symbols('p0:%d' % len(vals))
 num = np.array(B.{name}(*vals).matrix.tolist(), dtype=complex)
-symb = np.array(B.{name}(*syms).matrix.subs(dict(zip(syms, vals))).evalf().tolist(), dtype=complex)
+symb = np.array(B.{name}(*syms).matrix.subs(dict(zip(syms, vals))).evalf(30).tolist(), dtype=complex)
 OK = bool(np.allclose(num, symb, atol=1e-9))
 OBSERVED = f"matrix at numeric parameters differs from the symbolic matrix evaluated there by {{abs(num - symb).max()}}"
 """
                     rep = __import__("vfw.replay", fromlist=["x"]).replay_dict(code, "numeric and symbolic evaluation agree")
-                    return core.bounded_fail(f"{name}: the matrix computed for the numeric parameters {env} differs from the symbolic matrix "
-                                             f"(proved unitary / group law) evaluated there: numeric-only code path?", cex={"parameters": env},
+                    return core.bounded_fail(f"{name}: the matrix computed for the numeric parameters {env} differs from {bad}: numeric-only code path?", cex={"parameters": env},
                                              replay=rep, finding_key=f"{name}.numeric-vs-symbolic")
             return core.bounded_pass(f"{name}: native factory value equals Engine M's value at {cases} sample point(s)", cases,
                                      backend="native-sampling")
